@@ -66,7 +66,18 @@ def run_shard(spec, tier, seed, budget_s):
             doc = gen.random_doc(rng, size, 'plain')
             for r in doc.refs:
                 r.api_inline = rng.random() < 0.4
-            c03.both_origins(sh, doc, f'{seed}-{i}-{k}', 'random', PARTS, fn=check, api_inline=True)
+            suite = 'random'
+            if rng.random() < 0.25 and gen.same_bare_names(doc, rng):
+                suite = 'samebare'
+                # the join table is <left>_<right> in the left schema: keep <> references unambiguous
+                seen = set()
+                for r in doc.refs:
+                    if r.kind == '<>':
+                        key = (doc.tables[r.t1].schema, doc.tables[r.t1].name, doc.tables[r.t2].name)
+                        if key in seen:
+                            r.kind = '>'
+                        seen.add(key)
+            c03.both_origins(sh, doc, f'{seed}-{i}-{k}', suite, PARTS, fn=check, api_inline=True)
     for k2, v in reach.counts.items():
         if k2.startswith('renderer.sql') or k2.startswith('_classes.reference'):
             sh.count('reach.' + k2, v)
@@ -76,7 +87,7 @@ def run_shard(spec, tier, seed, budget_s):
 def conclusive(agg, tier):
     c = agg['counters']
     out = []
-    need = ['obs.cases.product.ref.api', 'obs.cases.product.ref.parsed', 'obs.cases.random.api', 'class.ref.self',
+    need = ['obs.cases.product.ref.api', 'obs.cases.product.ref.parsed', 'obs.cases.random.api', 'obs.cases.samebare.api', 'class.ref.self',
             'class.ref.cross_schema', 'class.ref.named', 'class.ref.actions', 'obs.statements.alter_fk']
     for kind in ('>', '<', '-'):
         need += [f'class.ref.{kind}.inline.arity1', f'class.ref.{kind}.alter.arity1', f'class.ref.{kind}.alter.arity2',
